@@ -204,6 +204,15 @@ func runC18(res *lib.Result, tier string, seed int64, args []string) error {
 		if t.sib {
 			mods = append(mods, "sib")
 		}
+		if wi%2 == 0 {
+			// a module that exists as name.lua AND as name/init.lua (name.lua wins everywhere), and a dotted module that
+			// exists only as a directory with init.lua
+			for _, p := range []string{"zpk.lua", "zpk/init.lua", "zpd/net/init.lua"} {
+				t.files = append(t.files, p)
+			}
+			sort.Strings(t.files)
+			mods = append(mods, "zpk", "zpd.net")
+		}
 		// dofile("<path>.lua") references (resolved by exact path first, then by suffix match)
 		for k := r.Intn(3); k > 0; k-- {
 			f := t.files[r.Intn(len(t.files))]
